@@ -189,7 +189,11 @@ def run(ctx):
     fh = pkg.func("ppm.HDD")
     pow2_guard(ctx, fh, "C12.1", {"input": "binary_sequence"})
     it = Interp(pkg, param_classes={"input": "binary_sequence"})
-    it.run(fh)
+    hdd_outs = it.run(fh)
+    hdd_rets = [o for o in hdd_outs if o.kind == "return"]
+    ctx.check("C12.4", len(hdd_rets) == 1, fh, hdd_rets[0].node if hdd_rets else fh.node, f"HDD: {len(hdd_rets)} returning path(s)", "every accepted input goes through both repair loops",
+              "HDD can return on a path that skips the repairs" + (f" (under `{hdd_rets[0].conds[-1][0]}`)" if len(hdd_rets) > 1 and hdd_rets[0].conds else "") +
+              ": a necessary-only shortcut test (e.g. total ON count == number of symbols) lets sequences with an empty and a crowded symbol through unrepaired")
     length_guard(ctx, fh, it, "C12.1", M, "whole-symbol length guard")
     s = eff.sum[fh.qualname]
     ctx.check("C12.4", not s.mutates, fh, next(iter(s.mutates.values())) if s.mutates else fh.node, "HDD: repairs are written into a copy", "input (or the binary_sequence it came from) never written",
@@ -290,6 +294,6 @@ def run(ctx):
     ctx.require_min("C12.1", 4)
     ctx.require_min("C12.2", 1)
     ctx.require_min("C12.3", 1)
-    ctx.require_min("C12.4", 4)
+    ctx.require_min("C12.4", 5)
     ctx.require_min("C12.5", 2)
     ctx.require_min("C12.6", 12)
